@@ -25,13 +25,21 @@ CLAIMED["C02"] = dict(
         "Legality of constraint sets (validate_constraints) is taken from the implementation, not modelled. No axioms.",
    technique="Coq proofs over validators regenerated from source by a translator + model/implementation correspondence", design="§8 C02")
 CLAIMED["C03"] = dict(
-   text="Machine-checked proof (Coq), partial: for every lax validator (translated from source on each run) the output is a fixed "
+   text="Machine-checked proof (Coq), partial: (1) for every lax validator (translated from source on each run) the output is a fixed "
         "point and, on exact domains, satisfies the strict form (13 theorems); the max_digits half is refuted by a proved witness "
-        "(known finding). Idempotence of whole types is not yet a theorem: it is carried by the parse correspondence and an "
-        "idempotence oracle on the implementation.",
-   note="Trusted: as C02. Partial: containers/unions/data classes idempotence is checked by execution only (parse correspondence + "
-        "re-parse oracle), three known findings (lax max_digits carry, heterogeneous &, ^ output).",
-   technique="Coq proofs over lax validators regenerated from source + re-parse oracle and correspondence on the implementation", design="§8 C03")
+        "(known finding). (2) Whole types: C03_reparse_returns_the_result / C03_reparse_call / C03_reparse_nested — for every type of "
+        "the fragment `stable` (Spec/Stable.v: builtin classes, data classes, unions | and ^ of those, negations, constrained scalars "
+        "and Optional-style rules over a stable origin, list / set / frozenset / variable-length tuple of stable element types, "
+        "checking constraints), every input, every options record with the 'throw' policies and every nesting level, parsing the "
+        "result again returns exactly that result and leaves the context untouched, provided no bool stands where an int is "
+        "declared (int([True]) is True: proved to re-parse to the equal value 1); C03_results_are_typed derives the exact classes of "
+        "results from the first parse (by induction on the knot of the parse calculus, three stages of unions and set rebuilding "
+        "included). Outside the fragment (fixed-length tuples, mappings, &, unions of constrained types, lax constraints inside "
+        "types, exclude / preserve) idempotence is carried by the parse correspondence and the idempotence oracle, with six listed findings.",
+   note="Trusted: as C02 and C01 (Model/Parse.v tied by the parse correspondence suites). The reparse-fragment suite evaluates "
+        "in_fragment in Coq on every accepted generated case and requires the implementation's second parse to return the first result "
+        "exactly (classes and contents) inside the fragment; no listed finding applies there. Partial: see text.",
+   technique="Coq proofs over lax validators regenerated from source + Coq proof by induction on the parse calculus for re-parsing (stable fragment) + re-parse oracle and correspondence on the implementation", design="§8 C03")
 CLAIMED["C18"] = dict(
    text="Machine-checked proof (Coq), partial: theorems C18_list_exact, C18_dict_exact, C18_optional_exact — for `class Node: v: int; "
         "link: List[Node]`, `link: Dict[str, Node]` and `link: Optional[Node] = None` with max_depth=d, EVERY input (trees of any size and "
